@@ -207,7 +207,7 @@ func (d *m2gIDs) id(key string) int {
 }
 
 type m2gCase struct {
-	ids        m2gIDs
+	ids        *m2gIDs
 	cols       [][]gen.Triple // reference streams
 	hole       bool           // a required member is missing below a present optional group
 	anyZeroOpt bool           // map[string]any holds a non-nil interface with a zero value below an optional member
@@ -524,7 +524,7 @@ func RunC03MapToGroup(ctx *core.Ctx) {
 				// the same group as the required member "m" of a record: same leaf columns, same levels
 				recSchema := parquet.NewSchema("t", parquet.Group{"m": root.node()})
 				n := []int{1, 2, 3, 7, 63, 64, 65, 130}[r.Intn(8)]
-				c := &m2gCase{cols: make([][]gen.Triple, ncol)}
+				c := &m2gCase{ids: &m2gIDs{}, cols: make([][]gen.Triple, ncol)}
 				vals := make([]string, n)
 				anyRows := make([]map[string]any, n)
 				for i := range anyRows {
@@ -656,6 +656,94 @@ func RunC03MapToGroup(ctx *core.Ctx) {
 					req = "m2g.write " + gtext + " " + strings.Join(vals, " ")
 				}
 				want := c.streams(c.cols)
+				// the same maps as the member "m" of a record on an OPTIONAL group node: the optional
+				// wrapper (null index of map types: nil map) over writeRowsFuncOfMapToGroup; every
+				// level one up, the nil map a null group
+				if branch != "iface" {
+					nc := 0
+					root.number(&nc, 1)
+					c2 := &m2gCase{ids: c.ids, cols: make([][]gen.Triple, ncol)}
+					vals2 := make([]string, n)
+					for i, m := range anyRows {
+						if m == nil {
+							c2.absent(root, 0)
+							vals2[i] = "N"
+						} else {
+							vals2[i] = "J(" + c2.walkMap(root, m, 1, branch != "any") + ")"
+						}
+					}
+					c2.hole = c2.hole && branch != "string" // the string branch writes the zero string as a value
+					optSchema := parquet.NewSchema("t", parquet.Group{"m": parquet.Optional(root.node())})
+					var data []byte
+					var err error
+					switch branch {
+					case "string":
+						recs := make([]m2gRecS, n)
+						for i, m := range anyRows {
+							if m != nil {
+								recs[i].M = map[string]string{}
+								for k, v := range m {
+									s, _ := v.(string)
+									recs[i].M[k] = s
+								}
+							}
+						}
+						data, err = m2gWriteBuffer(optSchema, recs)
+					case "int32":
+						recs := make([]m2gRecI, n)
+						for i, m := range anyRows {
+							if m != nil {
+								recs[i].M = map[string]int32{}
+								for k, v := range m {
+									x, _ := v.(int32)
+									recs[i].M[k] = x
+								}
+							}
+						}
+						data, err = m2gWriteBuffer(optSchema, recs)
+					default:
+						recs := make([]m2gRecA, n)
+						for i := range anyRows {
+							recs[i].M = anyRows[i]
+						}
+						data, err = m2gWriteBuffer(optSchema, recs)
+					}
+					ctx.Hist("maptogroup-optional-member", fmt.Sprintf("branch=%s missing-required-member=%v", branch, c2.hole))
+					d2 := map[string]any{"branch": branch, "schema": "m: optional " + gtext, "rows": vals2, "build": ctx.Variant, "path": "generic-buffer-typed-optional-member"}
+					report2 := func(layer, key, what string) {
+						if c2.hole {
+							ctx.Observe("maptogroup-required-member-missing-below-optional-group path=generic-buffer-typed-optional-member", what+" [a required member of the optional group has no key in the map: writeNull at the maximum definition level]", d2)
+						} else {
+							ctx.Fail(layer, key, what, d2)
+						}
+					}
+					var got2 [][]gen.Triple
+					if err == nil {
+						got2, err = gen.ReadColumns(data)
+					}
+					if err != nil {
+						report2("L1", "path-error path=generic-buffer-typed-optional-member branch="+branch+" "+errClass(err), "writing maps onto an optional GROUP member failed: "+err.Error())
+					} else {
+						impl2, want2 := c.streams(got2), c.streams(c2.cols)
+						d2["impl"], d2["want"] = impl2, want2
+						if impl2 != want2 {
+							report2("L1", "stream-mismatch path=generic-buffer-typed-optional-member branch="+branch, "the streams stored for maps on an optional GROUP member differ from the reference shredder")
+						}
+						if branch != "string" {
+							ans, err := d.Ask("m2g.owrite " + gtext + " " + strings.Join(vals2, " "))
+							if err != nil {
+								ctx.Fail("L2", "driver-error", err.Error(), nil)
+								return
+							}
+							if model, ok := m2gModelStreams(ans); !ok || model != impl2 {
+								d2["model"] = ans
+								report2("L2", "maptogroup-typed-path-differs-from-mirror path=generic-buffer-typed-optional-member branch="+branch, "the streams stored by one GenericBuffer[record].Write call differ from the Lean mirror m2gOptWrite")
+							}
+						}
+					}
+					nc = 0
+					root.number(&nc, 0)
+				}
 				for _, p := range paths {
 					// the two recorded situations (see the slice report)
 					holePath := c.hole && p.name != "writer-write"
